@@ -266,3 +266,124 @@ def find_var(f, decl_id):
 
 def where(f, n):
     return f.loc(n)
+
+
+# ---------------------------------------------------------------------------------------------- alpha-equivalence
+import re as _re
+
+_TOK = _re.compile(r"[A-Za-z_][A-Za-z0-9_]*|\d+(?:\.\d+)?|\S")
+_IDENT = _re.compile(r"[A-Za-z_][A-Za-z0-9_]*$")
+
+
+class Alpha:
+    """Compares printed code with an expected text modulo a consistent renaming of the local variables / parameters in scope.
+    The expected texts are written with the names the code has today; a behaviour-preserving rename of a local must not change any
+    verdict, while using a *different* variable in one place conflicts with the bindings made by the other comparisons.
+    Bindings (expected name <-> actual name) are shared by all comparisons made through one Alpha object."""
+
+    def __init__(self, F, *fns):
+        from .pp import pp as _pp
+        self._pp = _pp
+        self.names = set()
+        self.fwd, self.bwd = {}, {}
+        seen = set()
+        work = list(fns)
+        while work:
+            f = work.pop()
+            if f is None or f.key in seen:
+                continue
+            seen.add(f.key)
+            for p in f.params:
+                if p.get("n"):
+                    self.names.add(p["n"])
+            for v in f.nodes():
+                if v["k"] == "var":
+                    if v.get("n"):
+                        self.names.add(v["n"])
+                    for b in v.get("bindings", ()):
+                        self.names.add(b["n"])
+            if F is not None:
+                for _, g in F.lambdas_in(f):
+                    work.append(g)
+                if f.is_lambda and f.parent:
+                    work.extend(F.by_key.get(f.parent, [])[:1])
+
+    def _text(self, x):
+        return x if isinstance(x, str) else self._pp(x)
+
+    def eq(self, actual, expected, commit=True):
+        if actual is None:
+            return False
+        A = _TOK.findall(self._text(actual))
+        E = _TOK.findall(expected)
+        if len(A) != len(E):
+            return False
+        fwd, bwd = dict(self.fwd), dict(self.bwd)
+        for i, (a, e) in enumerate(zip(A, E)):
+            member = i > 0 and A[i - 1] in (".", ">") and (A[i - 1] == "." or (i > 1 and A[i - 2] == "-"))
+            scoped = i > 0 and A[i - 1] == ":"
+            if _IDENT.match(a) and _IDENT.match(e) and not member and not scoped and (a in self.names or e in fwd or a in bwd):
+                if fwd.get(e, a) != a or bwd.get(a, e) != e:
+                    return False
+                if a in self.names:
+                    fwd[e], bwd[a] = a, e
+                elif a != e:
+                    return False
+            elif a != e:
+                return False
+        if commit:
+            self.fwd, self.bwd = fwd, bwd
+        return True
+
+    def any(self, nodes, expected):
+        """first node alpha-equal to expected (bindings committed for it)"""
+        for n in nodes:
+            if self.eq(n, expected):
+                return n
+        return None
+
+    def name(self, expected_name):
+        return self.fwd.get(expected_name, expected_name)
+
+    def canon(self, actual):
+        """text with bound actual names replaced by their expected names (for messages / set comparisons)"""
+        toks = _TOK.findall(self._text(actual))
+        out = []
+        for i, t in enumerate(toks):
+            member = i > 0 and (toks[i - 1] == "." or (toks[i - 1] == ">" and i > 1 and toks[i - 2] == "-"))
+            out.append(self.bwd.get(t, t) if not member else t)
+        return " ".join(out)
+
+    def bind(self, expected_name, actual_name):
+        if actual_name is None:
+            return False
+        if self.fwd.get(expected_name, actual_name) != actual_name or self.bwd.get(actual_name, expected_name) != expected_name:
+            return False
+        self.fwd[expected_name], self.bwd[actual_name] = actual_name, expected_name
+        return True
+
+    def bind_params(self, f, expected_names):
+        ok = len(f.params) >= len(expected_names)
+        for p, e in zip(f.params, expected_names):
+            if e and p.get("n"):
+                ok = self.bind(e, p["n"]) and ok
+        return ok
+
+    def var(self, f, expected_name, init=None):
+        """the var node playing the role `expected_name`: by an existing binding, else by its initialiser text, else by name"""
+        cands = [v for v in f.nodes() if v["k"] == "var"]
+        if expected_name in self.fwd:
+            m = [v for v in cands if v["n"] == self.fwd[expected_name]]
+            return m[0] if len(m) == 1 else None
+        if init is not None:
+            m = [v for v in cands if v.get("c") and v["n"] not in self.bwd and self.eq(v["c"][0], init, commit=False)]
+            if len(m) == 1:
+                self.eq(m[0]["c"][0], init)
+                self.bind(expected_name, m[0]["n"])
+                return m[0]
+            return None
+        m = [v for v in cands if v["n"] == expected_name]
+        if len(m) == 1:
+            self.bind(expected_name, expected_name)
+            return m[0]
+        return None
